@@ -167,12 +167,16 @@ type ReplayFile struct {
 	MinSize    int             `json:"minimised_size"`
 	ShrinkExec int             `json:"shrink_executions"`
 	Fatal      string          `json:"fatal,omitempty"`
+	// Prelude: scripts executed (verdicts ignored) in the same fresh process before Script.
+	// Empty for every library whose behaviour depends only on its arguments; needed when the
+	// library keeps package-level state (a pool, a cache) that an earlier run leaves behind.
+	Prelude []json.RawMessage `json:"prelude,omitempty"`
 }
 
-func writeReplay(p Property, tier string, seed uint64, run int, script interface{}, v *Violation, hash uint64, orig, execs int, fatal string) string {
+func writeReplay(p Property, tier string, seed uint64, run int, script interface{}, v *Violation, hash uint64, orig, execs int, fatal string, prelude ...json.RawMessage) string {
 	raw, _ := json.Marshal(script)
 	rf := ReplayFile{Property: p.ID(), Tier: tier, Seed: seed, Run: run, Script: raw, Violation: v,
-		LogHash: fmt.Sprintf("%016x", hash), TreeID: TreeID(), OrigSize: orig, MinSize: p.Size(script), ShrinkExec: execs, Fatal: fatal}
+		LogHash: fmt.Sprintf("%016x", hash), TreeID: TreeID(), OrigSize: orig, MinSize: p.Size(script), ShrinkExec: execs, Fatal: fatal, Prelude: prelude}
 	dir := filepath.Join(VerifDir(), "replays")
 	os.MkdirAll(dir, 0o755)
 	sh := sha256.Sum256([]byte(v.Sig))
@@ -203,6 +207,16 @@ func LoadReplay(path string) (*ReplayFile, Property, interface{}, error) {
 	return &rf, p, s, nil
 }
 
+// runPrelude executes the prelude scripts of a replay file, ignoring their verdicts.
+func runPrelude(p Property, rf *ReplayFile) {
+	for _, raw := range rf.Prelude {
+		s := p.New()
+		if json.Unmarshal(raw, s) == nil {
+			RunOnce(p, s, false)
+		}
+	}
+}
+
 // Replay executes a replay file in this (fresh) process.
 // exit 1: the recorded violation reproduces exactly (prints VIOLATION line)
 // exit 0: no violation on this tree and the tree differs from the recorded one
@@ -213,9 +227,11 @@ func Replay(path string, verbose bool) int {
 		fmt.Fprintln(os.Stderr, "replay:", err)
 		return 2
 	}
+	runtime.GOMAXPROCS(1)
 	if p.Info().Isolated {
 		startWatchdog(nil)
 	}
+	runPrelude(p, rf)
 	v, hash, lines := RunOnce(p, script, verbose)
 	if verbose {
 		for _, l := range lines {
@@ -441,7 +457,7 @@ func Worker(a WorkerArgs) int {
 		fmt.Fprintln(os.Stderr, "known_findings.json:", err)
 		return 2
 	}
-	runtime.GOMAXPROCS(2)
+	runtime.GOMAXPROCS(1) // one P: sync.Pool and scheduling inside the library behave the same in every process
 	j := openJournal(a.Journal)
 	iso := p.Info().Isolated
 	if iso {
@@ -456,6 +472,10 @@ func Worker(a WorkerArgs) int {
 		}
 	}
 	hashes := make([]uint64, 0, 1<<16)
+	const ringN = 64
+	var ring [ringN]interface{} // the scripts of the last runs of this process (circular)
+	ringPos := 0
+	tmpDir := a.Out // used as a per-worker path prefix for child-process files
 	sweep := p.SweepSize(a.Tier)
 	t0 := time.Now()
 	var longest, faulted *Sample
@@ -514,6 +534,24 @@ func Worker(a WorkerArgs) int {
 				longest = &Sample{Kind: "longest", Run: idx, Script: raw, Size: sz}
 			}
 		}
+		// the runs that preceded this one in this process (oldest first), materialised lazily
+		prevScriptsFn := func() []interface{} {
+			out := make([]interface{}, 0, ringN)
+			for k := 0; k < ringN; k++ {
+				if x := ring[(ringPos+k)%ringN]; x != nil {
+					out = append(out, x)
+				}
+			}
+			return out
+		}
+		var prevScripts []interface{}
+		if !iso && c.Violation() != nil {
+			prevScripts = prevScriptsFn()
+		}
+		if !iso {
+			ring[ringPos] = script
+			ringPos = (ringPos + 1) % ringN
+		}
 		if v := c.Violation(); v != nil {
 			res.ViolRuns++
 			f := res.Found[v.Sig]
@@ -527,12 +565,69 @@ func Worker(a WorkerArgs) int {
 				f.What = k.What
 			}
 			res.Found[v.Sig] = f
-			// minimise and write the replay file (bounded effort per worker)
 			orig := p.Size(script)
+			// Every reported violation must reproduce from a FRESH process. If it only does so
+			// after some of the preceding runs of this process, the library keeps package-level
+			// state (a pool, a cache): the shortest sufficient tail of those runs becomes the
+			// replay file's prelude.
+			if !iso {
+				if fv, _ := runIsolatedHang(p, script, tmpDir, 0); fv == nil || fv.Sig != v.Sig {
+					var prelude []json.RawMessage
+					found := false
+					recent := make([]json.RawMessage, len(prevScripts))
+					for i, rs := range prevScripts {
+						recent[i], _ = json.Marshal(rs)
+					}
+					for _, k := range []int{1, 2, 4, 8, 16, 32, 64} {
+						if k > len(recent) {
+							k = len(recent)
+						}
+						if k == 0 {
+							break
+						}
+						cand := recent[len(recent)-k:]
+						if pv, _ := runIsolatedHang(p, script, tmpDir, 0, cand...); pv != nil && pv.Sig == v.Sig {
+							prelude, found = append([]json.RawMessage(nil), cand...), true
+							break
+						}
+					}
+					if found {
+						// drop prelude scripts that are not needed
+						for i := 0; i < len(prelude); {
+							cand := append(append([]json.RawMessage(nil), prelude[:i]...), prelude[i+1:]...)
+							if pv, _ := runIsolatedHang(p, script, tmpDir, 0, cand...); pv != nil && pv.Sig == v.Sig {
+								prelude = cand
+							} else {
+								i++
+							}
+						}
+						f.Viol = v
+						f.Orig, f.Min = orig, p.Size(script)
+						f.Replay = writeReplay(p, a.Tier, a.Seed, idx, script, v, c.Hash(), orig, 0, "", prelude...)
+						res.Stats.Units["violations_needing_prelude"]++
+						continue
+					}
+					if strings.HasPrefix(v.Sig, "alloc:") || strings.HasPrefix(v.Sig, "stress_alloc:") {
+						delete(res.Found, v.Sig)
+						res.ViolRuns--
+						res.Stats.Units["alloc_borderline_unreproduced"]++
+						continue
+					}
+					fmt.Fprintf(os.Stderr, "worker: run %d violation %q reproduces neither alone nor after the preceding %d runs in a fresh process: not deterministic\n", idx, v.Sig, len(prevScripts))
+					return 2
+				}
+			}
+			// minimise and write the replay file (bounded effort per worker)
 			min, execs := script, 0
 			if minimised < 12 {
 				minimised++
 				min, execs = Minimise(p, Clone(p, script), v.Sig, 4000)
+				if !iso {
+					// the minimised script must itself reproduce from a fresh process
+					if fv, _ := runIsolatedHang(p, min, tmpDir, 0); fv == nil || fv.Sig != v.Sig {
+						min, execs = script, 0
+					}
+				}
 			}
 			mv, mh, _ := RunOnce(p, min, false)
 			if mv == nil || mv.Sig != v.Sig {
@@ -611,14 +706,15 @@ type oneOutcome struct {
 }
 
 func ExecOne(path, journalPath string) int {
-	_, p, script, err := LoadReplay(path)
+	rf, p, script, err := LoadReplay(path)
 	if err != nil {
 		fmt.Fprintln(os.Stderr, err)
 		return 2
 	}
-	runtime.GOMAXPROCS(2)
+	runtime.GOMAXPROCS(1) // one P: sync.Pool and scheduling inside the library behave the same in every process
 	j := openJournal(journalPath)
 	startWatchdog(j)
+	runPrelude(p, rf)
 	st := NewStats()
 	c := NewCtx(st)
 	if j != nil {
@@ -640,12 +736,16 @@ func runIsolated(p Property, script interface{}, dir string) (*Violation, string
 	return runIsolatedHang(p, script, dir, 0)
 }
 
-func runIsolatedHang(p Property, script interface{}, dir string, hangMS int) (*Violation, string) {
+func runIsolatedHang(p Property, script interface{}, dir string, hangMS int, prelude ...json.RawMessage) (*Violation, string) {
 	raw, _ := json.Marshal(script)
-	rf := ReplayFile{Property: p.ID(), Script: raw}
+	rf := ReplayFile{Property: p.ID(), Script: raw, Prelude: prelude}
 	b, _ := json.Marshal(rf)
+	// dir is a directory (parent process) or a per-worker path prefix (workers run concurrently)
 	f := filepath.Join(dir, "one.json")
 	jf := filepath.Join(dir, "one.journal")
+	if st, err := os.Stat(dir); err != nil || !st.IsDir() {
+		f, jf = dir+".one.json", dir+".one.journal"
+	}
 	os.Remove(jf)
 	os.WriteFile(f, b, 0o644)
 	cmd := exec.Command(os.Args[0], "exec-one", "--file", f, "--journal", jf)
